@@ -58,6 +58,34 @@ PROPS["C07"] = {
                   "node lands behind exactly the entries with a smaller count. Stdlib mixins and view iterators as for C06.",
     "level_note": "Trusted: pyvc, z3, dict semantics. MutableMapping.update and Mapping.__eq__ are covered by the bounded layer only.",
 }
+PROPS["C09"] = {
+    "units": ["contracts.c09_sorted", "contracts.c09_sorted:unit_map", "contracts.c09_sorted:unit_map_pairs",
+              "contracts.c09_sorted:unit_foreign", "contracts.c19_generic:unit_arg_sort"],
+    "bounded": True,
+    "level": "proof",
+    "trusted_base": ["pyvc VC generator (/verif/pyvc)", "z3", "Python semantics as listed in DESIGN.md §2.3",
+                     "library contracts (DESIGN §4): bisect.bisect_left, sorted (stable), dict(pairs) (last pair wins), list insert/del"],
+    "level_text": "SortedSet and SortedMap are verified against the set / dict of their keys (SMT reals): storage strictly ascending is a class "
+                  "invariant; insertions_index is the bisect_left point with flag <=> present; add/discard/remove/pop and "
+                  "store/delete/lookup/get/in/pop/setdefault are the builtin set / dict operations on the view; the constructors give "
+                  "set(init) / dict(init) for every finite initialiser (empty, unsorted, repeated keys - later pairs win); foreign-typed "
+                  "probes report absent (False / KeyError) with no write to the structure (separate unit with a foreign key sort).",
+    "level_note": "Trusted: pyvc, z3, the library contracts named in trusted_base; numeric keys are SMT reals (no NaN). MutableMapping.update, "
+                  "popitem, clear and the mapping views over SortedMap are covered by the bounded layer only.",
+}
+PROPS["C19"] = {
+    "units": ["contracts.c19_generic:unit_arg_sort", "contracts.c19_generic:unit_subseq"],
+    "bounded": True,
+    "level": "other",
+    "trusted_base": ["pyvc VC generator (/verif/pyvc)", "z3", "Python semantics as listed in DESIGN.md §2.3", "sorted() library contract"],
+    "explanation": "Deductive (unbounded) for arg_sort, sub_seq, search_sub_seq; roman numerals by exhaustive "
+                   "enumeration of the finite domain 1..3999 on the real code; BatcherIter with tuple inputs bounded only. "
+                   "The bounded parts are reported under coverage.bounded and are not counted as proved.",
+    "level_text": "Proof for the sequence helpers that are functions of unbounded inputs (arg_sort = the stable sorting permutation incl. reverse; "
+                  "sub_seq / search_sub_seq = exactly the contiguous occurrences, overlapping ones included); "
+                  "exhaustive evaluation for the roman numerals (finite domain); bounded lock-step check for tuple batching.",
+    "level_note": "Trusted: pyvc, z3, sorted(). Roman numerals: enumeration of 1..3999 (complete for the stated domain, not a VC).",
+}
 
 # properties not claimed, with the reason (everything else not in PROPS gets the generic "not built yet" reason)
 NOT_APPLICABLE = {}
